@@ -18,6 +18,7 @@ package types
 
 import (
 	"fmt"
+	"sort"
 )
 
 type SSHKey struct {
@@ -68,6 +69,8 @@ func (s *SSHConfig) DecodeMapstructure(value interface{}) error {
 		result[i] = key
 		i++
 	}
+	// map iteration order is random: sort by ID so that the same input always decodes to the same slice
+	sort.Slice(result, func(i, j int) bool { return result[i].ID < result[j].ID })
 	*s = result
 	return nil
 }
